@@ -10,6 +10,15 @@ CHECKS = {
  "C17": ("venum", "exhaustive small-scope enumeration of byte strings on the real quote/unquote and line codec",
          "All byte strings up to length 2 (quick) / 3 (thorough) and all strings of up to 4 / 5 tokens over a 40-token dangerous alphabet are run through the real Bquote/Bunquote (round trip, no separator emitted); the <=2 set is also placed in TXT and generic lines with both separators and read back through the real codec. Complete enumeration inside the bound, not sampling.",
          "strconv is executed, not modelled; strings beyond the bounds are outside the claim", "DESIGN.md §3 C17"),
+ "C06": ("vsched", "explicit-state BFS over operation histories + exhaustive preemption-bounded interleaving exploration (stateless DFS with state-signature pruning) of the real db.DB/FBDNSDB code under a controlled scheduler",
+         "Part 1: breadth-first search over all histories (depth 5 quick / 7 thorough) of acquire/use/release on 3 reader slots, partial and full reloads (ok, same backend, open error, validation failure on new and on same backend, timeout with late success/failure), stats and shutdown, each transition executed by the real instrumented code over recording backends; invariant in every state: no use after close, no double close, served/held backends open, nothing unreferenced left open. Part 2: all interleavings within 2 (quick) / 3 (thorough) preemptions of eight concurrent scenarios (readers x reloads x timeout race x shutdown), with deadlock and panic detection.",
+         "backends are recording fakes of the db.DBI interface (they never free, so the search survives the event it looks for); the instrumenter's rewrite of sync/chan/select/context is trusted to preserve semantics (see DESIGN.md 1.1); schedules beyond the preemption bound and histories beyond the depth are outside the claim", "DESIGN.md §3 C06"),
+ "C16": ("venum", "exhaustive small-scope enumeration of record sequences, crafted hash collisions and buffer-boundary lengths on the real CDB writer/reader/dump/make against an insertion-ordered map model",
+         "Every ordered sequence of up to 4 (quick) / 5 (thorough) records over a 4-key x 3-value alphabet, generated databases up to 5000 / 40000 keys, crafted slot and full-hash collisions found by an exhaustive index of the hash over all strings of <=3 bytes (wrapping probe chains, absent colliding keys), all key/value lengths 0..700 / 0..2500 and lengths straddling 4096-byte reader buffers; each file written by the real writer, every present and absent key looked up, and Dump->Make compared byte for byte.",
+         "offsets near 4 GiB, concurrent readers and behaviour after Close are outside the claim", "DESIGN.md §3 C16"),
+ "C18": ("venum", "exhaustive small-scope enumeration of SVCB parameter lists on the real parser/marshaller against an RFC 9460 decoder written from the RFC and miekg's unpacker",
+         "Every ordered list of up to 4 (quick) / 5 (thorough) distinct keys of the seven supported keys times every value of a 38-value per-key alphabet (boundary ports, address forms, alpn lengths 0/1/255/256, ech base64 forms, mandatory variants), repeated-key / unknown-key / structural lists, oversize values, and whole B/H lines through the real codec: accepted lists must decode to exactly the declared list with two independent decoders, statement-level rejections must be refused, ToText->FromText must reproduce the wire bytes; panics are violations.",
+         "only values of the alphabet and lists within the bound; ech treated as opaque bytes", "DESIGN.md §3 C18"),
 }
 NOT_YET = "check not built yet in this round (work in progress; see DESIGN.md §9 for the construction order)"
 NOT_APPLICABLE = {}
